@@ -11,6 +11,7 @@ mod keys;
 mod c04;
 mod verify;
 mod datetime;
+mod pae;
 
 pub fn err_name(e: &in_toto::Error) -> String {
     let d = format!("{:?}", e);
@@ -58,6 +59,7 @@ fn main() {
             "metablock_verify" => c04::run(&pool, sc),
             "verify" => verify::run(&pool, sc),
             "parse_datetime" => datetime::run(sc),
+            "pae" => pae::run(sc),
             _ => json!({"outcome": "unsupported-kind"}),
         });
         out.push(r);
